@@ -29,5 +29,9 @@ def run(ctx):
     from rules import transport as T, timing as TM
     ctx.rule("R-FINISH-NOW", "an acknowledged J1939-21 send session is released at once (the next multi-packet DM16 is not refused)", floor=2)
     TM.finish_now(ctx, T.Layer(ctx, fd=False))
+    ctx.rule("R-EOM-COMPLETE", "multi-packet read: every legal end-of-message acknowledge (8..255 data bytes) completes the transaction", floor=1)
+    D.eom_complete(ctx)
     ctx.assume("DM14 fields are passed in range: object count 0..255, pointer < 2^32, key/user level < 2^16, direct in {0,1}")
+    ctx.rule("R-SETTLE-FIRST", "the handler of an expected reply finds the transaction state already stored (client and server; slow driver write or pre-empted sender)", floor=4)
+    D.settle_first(ctx)
     return "DM14/DM15/DM16 layouts by sibling composition, size thresholds, chunk slicing, told arguments and idle reset"
